@@ -61,15 +61,15 @@ VARIANTS = [
     # ------------------------------------------------------------------ C16 editor
     fire('c16-crlf-read', ['C16'], [(ED, "            with open(current_path, newline='') as f:", "            with open(current_path) as f:")], 'ED-NEWLINE'),
     fire('c16-dirname', ['C16'], [(ED, "            dirname = os.path.dirname(current_path)\n            if dirname:\n                os.makedirs(dirname, exist_ok=True)\n",
-                                   "            os.makedirs(os.path.dirname(current_path), exist_ok=True)\n")], 'ED-DIRNAME'),
+                                   "            os.makedirs(os.path.dirname(current_path), exist_ok=True)\n")], 'ED-SEM'),
     fire('c16-write-unguarded', ['C16'], [(ED, "        if updated_text != text:\n            with p.open('w', newline='') as f:\n                f.write(updated_text)",
-                                           "        with p.open('w', newline='') as f:\n            f.write(updated_text)")], 'ED-GUARD'),
+                                           "        with p.open('w', newline='') as f:\n            f.write(updated_text)")], 'ED-SEM'),
     fire('c16-finally', ['C16'], [(ED, "        yield file\n\n        updated_text = printer.print_model(file, io.StringIO()).getvalue()\n        if updated_text != text:\n            with p.open('w', newline='') as f:\n                f.write(updated_text)",
                                    "        try:\n            yield file\n        finally:\n            updated_text = printer.print_model(file, io.StringIO()).getvalue()\n            if updated_text != text:\n                with p.open('w', newline='') as f:\n                    f.write(updated_text)")], 'ED-AFTER-YIELD'),
-    fire('c16-no-normpath', ['C16'], [(ED, "            yield os.path.normpath(match)", "            yield match")], 'ED-ONCE'),
+    fire('c16-no-normpath', ['C16'], [(ED, "            yield os.path.normpath(match)", "            yield match")], 'ED-SEM'),
     fire('c16-seen-after-read', ['C16'], [(ED, "            if current_path in texts:\n                continue\n            with open(current_path, newline='') as f:\n                texts[current_path] = f.read()\n",
-                                           "            with open(current_path, newline='') as f:\n                text_ = f.read()\n            if current_path in texts:\n                continue\n            texts[current_path] = text_\n")], 'ED-ONCE'),
-    fire('c16-delete-wrong-set', ['C16'], [(ED, "        for current_path in set(texts) - set(files):", "        for current_path in set(files) - set(texts):")], 'ED-SETS'),
+                                           "            with open(current_path, newline='') as f:\n                text_ = f.read()\n            if current_path in texts:\n                continue\n            texts[current_path] = text_\n")], 'ED-SEM'),
+    fire('c16-delete-wrong-set', ['C16'], [(ED, "        for current_path in set(texts) - set(files):", "        for current_path in set(files) - set(texts):")], 'ED-SEM'),
     silent('c16-twin-binary-io', ['C16'], [(ED, "            with open(current_path, newline='') as f:\n                texts[current_path] = f.read()",
                                             "            with open(current_path, 'rb') as f:\n                texts[current_path] = f.read().decode()")]),
     # ------------------------------------------------------------------ C10 views
@@ -406,9 +406,9 @@ VARIANTS += [
     silent('r6-twin-editor-fspath', ['C16'], [(ED, _EDW, "            with open(os.fspath(p), 'w', newline='') as f:\n                f.write(updated_text)")]),
     silent('r6-twin-editor-key-list', ['C16'], [(ED, "        for current_path, file in files.items():\n", "        for current_path in list(files):\n            file = files[current_path]\n")]),
     fire('r6-editor-skip-empty', ['C16'], [(ED, "            files[current_path] = self._parser.parse(texts[current_path], models.File)\n",
-                                            "            if not texts[current_path]:\n                continue\n            files[current_path] = self._parser.parse(texts[current_path], models.File)\n")], 'ED-PAIR'),
+                                            "            if not texts[current_path]:\n                continue\n            files[current_path] = self._parser.parse(texts[current_path], models.File)\n")], 'ED-SEM'),
     fire('r6-editor-parse-guarded', ['C16'], [(ED, "            files[current_path] = self._parser.parse(texts[current_path], models.File)\n            queue.extend(_get_include_paths(current_path, files[current_path]))\n",
-                                               "            if 'include' in texts[current_path]:\n                files[current_path] = self._parser.parse(texts[current_path], models.File)\n                queue.extend(_get_include_paths(current_path, files[current_path]))\n")], 'ED-PAIR'),
+                                               "            if 'include' in texts[current_path]:\n                files[current_path] = self._parser.parse(texts[current_path], models.File)\n                queue.extend(_get_include_paths(current_path, files[current_path]))\n")], 'ED-SEM'),
     silent('r6-twin-editor-local-model', ['C16'], [(ED, "            files[current_path] = self._parser.parse(texts[current_path], models.File)\n            queue.extend(_get_include_paths(current_path, files[current_path]))\n",
                                                     "            parsed = self._parser.parse(texts[current_path], models.File)\n            queue.extend(_get_include_paths(current_path, parsed))\n            files[current_path] = parsed\n")]),
 ]
